@@ -348,9 +348,9 @@ add('C06-source-filter-pinned-by-first-datagram', 'mw2_06', 1, 'C06',
     change="readloop.go defaultReadLoop: the 'else { srcStr = s.remote.String() }' branch dropped",
     needs="a dialled session over a non-UDP net.PacketConn whose first datagram comes from a foreign source (random or too short is enough), then ordinary traffic from the real peer",
     also=['C11'],
-    checks={'C06 quick': "missed (the corrupted datagrams injected at dialled sessions claim the real peer's address; and the filter is a local variable of the read loop, invisible to the reflection snapshot)",
+    checks={'C06 quick': "caught: 12 runs, C06/no-effect/session-deaf-after-corrupted-datagram 'after a datagram failing the integrity check (data/truncated, from sim-241) a genuine datagram from the session's peer sim-1 is no longer taken in by sim-2' (strangers' datagrams at dialled sessions, also as the very first datagram, and the still-hears-its-peer probe; added in response; missed before)",
             'C11 quick': 'caught: 3 runs, C11/C01-stream/prefix-mismatch and read-beyond-written (foreign datagram first at a dialled session in non-UDP address mode)'},
-    notes="Caught under C11, which owns 'a dialled session ignores datagrams that do not come from its peer's address'. Under C06 the effect (the session starves) is a liveness effect the no-effect snapshot cannot see; a starvation oracle for the corrupt scenario was considered and not built (a run stopped by the virtual-time cap has other legitimate causes there).")
+    notes="First evaluation: missed under C06 (caught under C11). The corrupted datagrams injected at dialled sessions always claimed the real peer's address, and the filter is a local variable of the read loop, invisible to the reflection snapshot. Now a third of them come from a stranger, the first one sometimes before anything genuine has arrived, and after every injection at a dialled session a duplicate of a genuine datagram from the real peer must still be counted as received (the counter sits behind the source filter and the integrity gate).")
 
 add('C06-listener-short-datagram-guard', 'mw2_06', 2, 'C06',
     "Listener.packetInput guards len(data) < nonceSize (16) instead of cryptHeaderSize (20): a 16..19-byte datagram panics in the listener's receive goroutine",
